@@ -253,6 +253,13 @@ VARIANTS["C04"] = [
 
 # ------------------------------------------------------------------------------------------------ C17
 VARIANTS["C17"] = [
+    V("cursor-read-back-from-iw", "fire", UT, [(
+        "        while True:\n            last = first + self.nswin\n", "        while True:\n            first = self.iw * (self.nswin - self.overlap)\n            last = first + self.nswin\n")], ("D1",),
+      "the position is recomputed from the shared attribute: a second generator on the same object derails this one"),
+    V("twin-cursor-from-local-counter", "twin", UT, [(
+        "        self.iw = 0\n        first = 0\n        while True:\n            last = first + self.nswin\n",
+        "        self.iw = 0\n        first = 0\n        k = 0\n        while True:\n            first = k * (self.nswin - self.overlap)\n            last = first + self.nswin\n"), (
+        "            first += self.nswin - self.overlap\n            self.iw += 1\n", "            k += 1\n            self.iw += 1\n")], (), "closed-form position from a local counter"),
     V("stride-nswin", "fire", UT, [("            first += self.nswin - self.overlap\n", "            first += self.nswin\n")], ("D1",), "windows no longer overlap"),
     V("stride-half-overlap", "fire", UT, [("            first += self.nswin - self.overlap\n", "            first += self.nswin - self.overlap // 2\n")], ("D1",), ""),
     V("min-dropped", "fire", UT, [("            last = min(last, self.ns)\n", "")], ("D1",), "last window overruns; loop never ends"),
